@@ -41,6 +41,9 @@ func (gt *GoTo) Hierarchy() []slip.Symbol {
 	return []slip.Symbol{slip.TrueSymbol}
 }
 
+// IsTransfer marks the object as a slip.Transfer.
+func (gt *GoTo) IsTransfer() {}
+
 // Eval the object.
 func (gt *GoTo) Eval(s *slip.Scope, depth int) slip.Object {
 	return gt
